@@ -81,6 +81,36 @@ def edit(net, rng, pool, hist):
     ns, es = list(net.nodes), list(net.edges)
     r = rng.random()
     if sc:
+        mem = net.edges.members(dtype=dict)
+        maximal = [e for e in es if not any(mem[e] < mem[f] for f in es)]
+        big = [e for e in maximal if len(mem[e]) >= 3]
+        if big and r < 0.25:
+            # two codimension-1 faces of a maximal simplex trade their IDs (all counts unchanged)
+            t = rng.choice(big)
+            mt = mem[t]
+            faces = [e for e in es if len(mem[e]) == len(mt) - 1 and mem[e] < mt and sum(1 for f in es if mem[e] < mem[f]) == 1]
+            if len(faces) >= 2:
+                a, b = rng.sample(faces, 2)
+                ma, mb = list(mem[a]), list(mem[b])
+                net.remove_simplex_id(t)
+                net.remove_simplex_id(a)
+                net.remove_simplex_id(b)
+                net.add_simplex(mb, idx=a)
+                net.add_simplex(ma, idx=b)
+                net.add_simplex(list(mt), idx=t)
+                hist.append(f"faces {a!r} and {b!r} of simplex {t!r} trade their IDs")
+                return
+        if len(maximal) >= 2 and r < 0.45:
+            # two maximal simplices trade their IDs: node and simplex counts unchanged, the ID <-> members map changes
+            a, b = rng.sample(maximal, 2)
+            ma, mb = list(mem[a]), list(mem[b])
+            net.remove_simplex_id(a)
+            if b in net.edges:
+                net.remove_simplex_id(b)
+            net.add_simplex(mb, idx=a)
+            net.add_simplex(ma, idx=b)
+            hist.append(f"simplices {a!r} and {b!r} trade their IDs")
+            return
         if r < 0.5 or not es:
             ms = ops.rand_members(rng, pool, 2, 4)
             net.add_simplex(ms)
@@ -94,7 +124,20 @@ def edit(net, rng, pool, hist):
             net.remove_node(n)
             hist.append(f"remove_node({n!r})")
         return
-    if es and ns and r < 0.35:
+    if len(es) >= 2 and r < 0.12:
+        # two edges trade their IDs (same counts, other ID <-> members map)
+        a, b = rng.sample(es, 2)
+        if di:
+            dm = net.edges.dimembers(dtype=dict)
+            ma, mb = (list(dm[a][0]), list(dm[a][1])), (list(dm[b][0]), list(dm[b][1]))
+        else:
+            ma, mb = list(net.edges.members(a)), list(net.edges.members(b))
+        net.remove_edge(a)
+        net.remove_edge(b)
+        net.add_edge(mb, idx=a)
+        net.add_edge(ma, idx=b)
+        hist.append(f"edges {a!r} and {b!r} trade their IDs")
+    elif es and ns and r < 0.35:
         e, n = rng.choice(es), rng.choice(ns)
         if di:
             d = rng.choice(("in", "out"))
